@@ -14,6 +14,12 @@ ASSUME \A w \in Words :
          ~(Len(r.t) = 2 /\ r.t[2].k = "val")
 (* bare ? and . are ordinary unquoted strings *)
 ASSUME Lex(<<63, SP, 46>>) = [t |-> << [k |-> "val", s |-> <<63>>], [k |-> "val", s |-> <<46>>] >>, e |-> ""]
+(* a bare CR ends a comment: text behind it is data; written line by line (CommentLinesAnyBreak) it stays comment *)
+ASSUME Lex(<<HASH, SP, 97, CR, 98, LF>>).t = << [k |-> "val", s |-> <<98>>] >>
+ASSUME Lex(<<HASH, SP, 97, CR, LF, US, 98, SP, 99, LF>>).t = << [k |-> "tag", s |-> <<98>>], [k |-> "val", s |-> <<99>>] >>
+ASSUME \A c \in { <<97, CR, 98>>, <<97, CR, LF, US, 98, SP, 99>>, <<CR>>, <<97, CR, CR, 98, LF>>, <<CR, LF, 108, 111, 111, 112, 95>> } :
+         LET r == Lex(CommentLinesAnyBreak(c) \o TagT \o <<SP>> \o ValZ \o <<LF>>) IN
+         r.e = "" /\ r.t = << [k |-> "tag", s |-> <<116>>], [k |-> "val", s |-> ValZ] >>
 (* non-ASCII and control characters are errors *)
 ASSUME Lex(<<97, 181>>).e = "non_ascii_character" /\ Lex(<<97, 13>>).e = "control_character"
 =============================================================================
